@@ -1,7 +1,7 @@
 (* Proofs about Struct/Spelling.v: spellings related by the congruence [sp_eq] evaluate to objects that
    typedpy converts to the same Field term in every context. *)
 From Coq Require Import ZArith NArith String List Bool Lia. Import ListNotations.
-From TP Require Import Base.PyVal Fields.FieldAst Fields.SetChain Gen.TypeMapping Struct.Spelling.
+From TP Require Import Base.PyVal Fields.FieldAst Fields.SetChain Gen.TypeMapping Gen.AnnotGuards Struct.Spelling.
 Local Open Scope string_scope.
 
 (* ------------------------------------------------------------------ facts of the GENERATED table *)
@@ -1056,13 +1056,18 @@ Section DeclProofs.
   Definition evals_inst (s : tyexpr) : bool :=
     match pyeval s with Ok (OFieldInst _) => true | _ => false end.
 
+  (* a truthy default is validated by Field.__init__ under either recognised guard *)
+  Lemma init_validates_truthy dv : py_truthy dv = true -> init_validates dv = true.
+  Proof. unfold init_validates. intros H. destruct init_default_rule; try exact H. destruct dv; try reflexivity; discriminate. Qed.
+
   (* default=dv in the constructor call, dv truthy *)
   Lemma decl_kw_form d dv f :
     d_kw d = Some dv -> d_eq d = None -> py_truthy dv = true -> pyeval (d_ty d) = Ok (OFieldInst f) ->
     decl_result d =
     (_ <- try_default re_match e f dv ;; Ok (Some (mk_fres d f (Some dv) (d_opt d || false)))).
   Proof.
-    intros Hk He Ht Hp. unfold Spelling.decl_result. rewrite Hp, Hk, He. cbn [bind init_default]. rewrite Ht.
+    intros Hk He Ht Hp. unfold Spelling.decl_result. rewrite Hp, Hk, He. cbn [bind init_default].
+    rewrite (init_validates_truthy dv Ht).
     assert (HM : marks_optional (d_ty d) = false) by (unfold marks_optional; rewrite Hp; reflexivity).
     destruct (try_default re_match e f dv) as [[]|x]; [|reflexivity]. cbn [bind].
     destruct (d_annot d); cbn [tli_f tli bind opt_inst inst assign_obj andb];
@@ -1125,4 +1130,57 @@ Section DeclProofs.
     { induction H as [|d d' l l' Hd _ IH]; [reflexivity|]. cbn [mapM]. rewrite (decl_sound _ _ Hd), IH. reflexivity. }
     rewrite HM. reflexivity.
   Qed.
+
+  (* ---------------------------------------------------------------- from __future__ import annotations *)
+  Notation decl_result_future := (decl_result_future re_match e).
+  Notation class_result_future := (class_result_future re_match e).
+
+  Lemma decl_future_evaluated len d :
+    (d_annot d = true -> future_evaluated len = true) -> decl_result_future len d = decl_result d.
+  Proof.
+    intros H. unfold Spelling.decl_result_future. destruct (d_annot d); [|reflexivity].
+    rewrite (H eq_refl). reflexivity.
+  Qed.
+
+  (* a class whose annotations are all evaluated is the class defined without the __future__ import *)
+  Theorem future_transparent ds :
+    Forall (fun p => d_annot (snd p) = true -> future_evaluated (fst p) = true) ds ->
+    class_result_future ds = class_result (map snd ds).
+  Proof.
+    intros H. unfold Spelling.class_result_future, Spelling.class_result.
+    assert (HM : mapM (fun p => decl_result_future (fst p) (snd p)) ds = mapM decl_result (map snd ds)).
+    { induction H as [|p t Hp _ IH]; [reflexivity|]. cbn [mapM map]. rewrite (decl_future_evaluated _ _ Hp), IH.
+      reflexivity. }
+    rewrite HM. reflexivity.
+  Qed.
+
+  (* an annotation that is not evaluated is ignored: no field, whatever it says *)
+  Lemma decl_future_ignored len d :
+    d_annot d = true -> future_evaluated len = false -> decl_result_future len d = Ok None.
+  Proof. intros Ha Hf. unfold Spelling.decl_result_future. rewrite Ha, Hf. reflexivity. Qed.
 End DeclProofs.
+
+(* the guards read from the source text on this run are the ones the model transcribes / the proofs are about *)
+Lemma src_rules_today :
+  typing_optional_rule = OptIfAnyOfIsOptional /\ anyof_optional_rule = IsOptIfSomeNoneField /\
+  apply_default_rule = ApplyIfNoTruthyDefault /\ required_rule = ReqUnlessDefaultOrOptional /\
+  (init_default_rule = InitDefaultIfTruthy \/ init_default_rule = InitDefaultIfNotNone) /\
+  future_rule <> FutureUnrecognised /\
+  (forall l, is_mutable_default (PList l) = true) /\ (forall l, is_mutable_default (PDict l) = true) /\
+  (forall l, is_mutable_default (PSet false l) = true).
+Proof.
+  repeat split; try reflexivity; try discriminate. left; reflexivity.
+Qed.
+
+(* with today's guard the __future__ import is NOT transparent: a 60-character annotation loses its field *)
+Definition future_full : Prop :=
+  forall re_match e ds, class_result_future re_match e ds = class_result re_match e (map snd ds).
+
+Lemma future_refuted : ~ future_full.
+Proof.
+  intros H.
+  specialize (H (fun _ _ => false) []
+                [(60%Z, {| d_name := s2p "a"; d_annot := true; d_ty := TName (s2p "int"); d_eq := None; d_kw := None;
+                           d_opt := false |})]).
+  vm_compute in H. discriminate H.
+Qed.
